@@ -89,7 +89,41 @@ pub fn key_of_len(rng: &mut Rng, n: usize) -> Vec<u8> {
 
 /// C12: producers with the default partitioner over random metadata; explicit / keyed / keyless records,
 /// interleaved over several topics, unknown topics, leaderless partitions, counter presets near the wrap.
-pub fn gen_c12(rng: &mut Rng, d: &mut Dist, _idx: u64) -> Vec<String> {
+pub fn gen_c12(rng: &mut Rng, d: &mut Dist, idx: u64) -> Vec<String> {
+    // one history in seven: the producer is built from a client whose view of a topic went through a shrink (the topic was
+    // re-created with fewer partitions and loaded again by name): N is the topic's current partition count
+    if idx % 7 == 3 {
+        bump(d, "producer-from-a-client-that-saw-the-topic-shrink");
+        let n = 4 + rng.below(5) as usize;
+        let m = 1 + rng.below(n as u64 - 1) as usize;
+        let mut out = vec![format!("BROKER 1 {} 9092", h("b1")), format!("BROKER 2 {} 9092", h("b2")), format!("TOPIC {} {}", h("t"), n), format!("TOPIC {} 2", h("u")), "COORD 1".to_string()];
+        for p in 0..n {
+            out.push(format!("LEADER {} {} {}", h("t"), p, 1 + p % 2));
+        }
+        out.push(format!("LEADER {} 0 1", h("u")));
+        out.push(format!("LEADER {} 1 2", h("u")));
+        out.push(format!("OP client_new {}", h("b1:9092")));
+        out.push("OP c load_metadata_all".into());
+        out.push(format!("TOPIC {} {}", h("t"), m));
+        if m > 2 && rng.chance(1, 2) {
+            out.push(format!("LEADER {} 1 -1", h("t")));
+        }
+        out.push(if rng.chance(3, 4) { format!("OP c load_metadata {}", h("t")) } else { "OP c load_metadata_all".to_string() });
+        out.push("OP producer_create client".into());
+        let mut uniq = 0u32;
+        for _ in 0..(2 + rng.below(3)) {
+            let mut line = String::from("OP send_all");
+            for _ in 0..(2 + rng.below(8)) {
+                uniq += 1;
+                let kl = 1 + rng.below(9) as usize;
+                let key = if rng.chance(1, 2) { key_of_len(rng, kl) } else { vec![] };
+                let t = if rng.chance(1, 5) { "u" } else { "t" };
+                line.push_str(&format!(" {} -1 {} {}", h(t), if key.is_empty() { "-".to_string() } else { hex(&key) }, hex(&uniq.to_be_bytes())));
+            }
+            out.push(line);
+        }
+        return out;
+    }
     let maxp = *rng.pick(&[1u64, 2, 3, 5, 8, 16, 64]);
     let cl = Cluster::random(rng, maxp, true);
     let mut out = cl.setup_lines();
@@ -1731,7 +1765,7 @@ pub fn gen_c19(rng: &mut Rng, d: &mut Dist, idx: u64) -> Vec<String> {
 
 /// C05: batches with duplicate partitions, interleaved topics, unknown destinations at any position, leaderless
 /// partitions, acks in {0,1,-1}, all codecs, 1-3 brokers; via the client and via the producer.
-pub fn gen_c05(rng: &mut Rng, d: &mut Dist, _idx: u64) -> Vec<String> {
+pub fn gen_c05(rng: &mut Rng, d: &mut Dist, idx: u64) -> Vec<String> {
     let leaderless = rng.chance(1, 4);
     let mut cl = Cluster::random(rng, 4, leaderless);
     let mut out = cl.setup_lines();
@@ -1917,7 +1951,17 @@ pub fn gen_c05(rng: &mut Rng, d: &mut Dist, _idx: u64) -> Vec<String> {
                 line.push_str(&format!(" {} {} {} {}", h(&t.name), p, if k.is_empty() { "-".to_string() } else { hex(&k) }, hex(&v)));
             }
             if line != "OP send_all" {
+                // one producer history in three: the connection is lost under a send (end of stream or a refused write, at
+                // the first or a later I/O call): the call fails, nothing is sent a second time, the next send is complete
+                let lost = idx % 3 == 1;
+                if lost {
+                    bump(d, "producer-send-loses-its-connection");
+                    out.push(format!("H {} {}", ["eof_read", "fail_send", "eof_read", "fail_recv"][(uniq % 4) as usize], uniq % 3));
+                }
                 out.push(line);
+                if lost {
+                    out.push("H clear_faults".into());
+                }
             }
         }
     }
@@ -2416,9 +2460,17 @@ pub fn gen_c04(rng: &mut Rng, d: &mut Dist, idx: u64) -> Vec<String> {
         let on = rng.chance(3, 4);
         bump(d, if on { "validation-on" } else { "validation-off" });
         let other = h("zz-other");
+        // (every other history with several brokers: the healthy partitions are led by another broker than the corrupted
+        // one - a call that spans brokers fails as a whole all the same)
+        let ob = if idx % 2 == 1 && cl.brokers.len() > 1 {
+            bump(d, "healthy-partitions-on-another-broker");
+            cl.brokers[1].0
+        } else {
+            cl.brokers[0].0
+        };
         out.push(format!("TOPIC {} 2", other));
-        out.push(format!("LEADER {} 0 {}", other, cl.brokers[0].0));
-        out.push(format!("LEADER {} 1 {}", other, cl.brokers[0].0));
+        out.push(format!("LEADER {} 0 {}", other, ob));
+        out.push(format!("LEADER {} 1 {}", other, ob));
         out.push(format!("APPEND {} 0 plain 0 ~ aa", other));
         // the victim's topic has one partition led by some broker; make everything live on the first broker
         out.push(format!("LEADER {} 0 {}", h(&t.name), cl.brokers[0].0));
